@@ -354,8 +354,12 @@ class History:
         i = self.build_instruction(kind, vclass, vsel, tclass, tsel, csel)
         env2 = self.env.set_reporter(Reporter())  # probes must not add events to the monitored history
         s = self.sim
-        with quiet():
-            s2 = apply_instructions(s, env2, (i,))
+        try:
+            with quiet():
+                s2 = apply_instructions(s, env2, (i,))
+        except Exception as exc:
+            self._crashed(exc)
+            return
         self.stats["probes"] += 1
         for m in self.monitors:
             self.report(m.after_probe(self, s, s2, i, i.vehicle_id))
@@ -374,11 +378,15 @@ class History:
                 instrs.append(i)
         env2 = self.env.set_reporter(Reporter())
         s = self.sim
-        with quiet():
-            s2 = apply_instructions(s, env2, tuple(instrs))
-            s3 = s
-            for i in instrs:  # the same instructions one at a time
-                s3 = apply_instructions(s3, env2, (i,))
+        try:
+            with quiet():
+                s2 = apply_instructions(s, env2, tuple(instrs))
+                s3 = s
+                for i in instrs:  # the same instructions one at a time
+                    s3 = apply_instructions(s3, env2, (i,))
+        except Exception as exc:
+            self._crashed(exc)
+            return
         self.stats["batch_probes"] += 1
         for m in self.monitors:
             fn = getattr(m, "batch", None)
